@@ -221,24 +221,62 @@ const SLICE_COMMITMENT_LEN: usize = 8 + 8 + 1 + 32;
 ///
 /// This is an opaque capability, obtainable only via [`ValidatedShred::commitment`].
 /// The inner byte layout is a protocol detail, not a stable API.
-#[derive(Clone, Copy, Debug, PartialEq, Eq)]
-pub struct SliceCommitment([u8; SLICE_COMMITMENT_LEN]);
+///
+/// A commitment obtained from a [`ValidatedShred`] also remembers the leader's signature
+/// that was verified for it, see [`SliceCommitment::is_verified_signature`].
+/// Two commitments are equal iff they cover the same bytes, whatever signature they remember.
+#[derive(Clone, Copy, Debug)]
+pub struct SliceCommitment {
+    /// The bytes the leader signs.
+    bytes: [u8; SLICE_COMMITMENT_LEN],
+    /// Signature over `bytes` that is known to be valid under the leader's key, if any.
+    verified_sig: Option<Signature>,
+}
 
 impl SliceCommitment {
     /// Creates a [`SliceCommitment`] covering a [`SliceHeader`] and a [`SliceRoot`].
+    ///
+    /// It does not remember any verified signature.
     pub(crate) fn new(header: &SliceHeader, slice_root: &SliceRoot) -> Self {
         let mut buf = [0u8; SLICE_COMMITMENT_LEN];
         buf[0..8].copy_from_slice(&header.slot.inner().to_le_bytes());
         buf[8..16].copy_from_slice(&(header.slice_index.inner() as u64).to_le_bytes());
         buf[16] = u8::from(header.is_last);
         buf[17..49].copy_from_slice(slice_root.as_ref());
-        Self(buf)
+        Self {
+            bytes: buf,
+            verified_sig: None,
+        }
+    }
+
+    /// Remembers `sig` as a signature that is valid for this commitment under the leader's key.
+    #[must_use]
+    pub(crate) fn with_verified_signature(mut self, sig: Signature) -> Self {
+        self.verified_sig = Some(sig);
+        self
+    }
+
+    /// Returns `true` iff `sig` is the very signature that was verified for this commitment.
+    ///
+    /// Only then can a shred claiming this commitment skip signature verification.
+    #[must_use]
+    pub fn is_verified_signature(&self, sig: &Signature) -> bool {
+        self.verified_sig.as_ref() == Some(sig)
     }
 }
 
+impl PartialEq for SliceCommitment {
+    /// Compares what the leader signed, not which signature was seen for it.
+    fn eq(&self, other: &Self) -> bool {
+        self.bytes == other.bytes
+    }
+}
+
+impl Eq for SliceCommitment {}
+
 impl AsRef<[u8]> for SliceCommitment {
     fn as_ref(&self) -> &[u8] {
-        &self.0
+        &self.bytes
     }
 }
 
